@@ -12,6 +12,7 @@ import (
 	"fmt"
 	"net"
 	"strconv"
+	"sync/atomic"
 	"time"
 
 	"github.com/named-data/ndnd/fw/core"
@@ -31,7 +32,7 @@ type UnicastTCPTransport struct {
 
 	// Permanent face reconnection
 	rechan chan bool
-	closed bool // (permanently)
+	closed atomic.Bool // (permanently); set and read by different goroutines
 }
 
 // Makes an outgoing unicast TCP transport.
@@ -191,7 +192,7 @@ func (t *UnicastTCPTransport) reconnect() {
 		// However, make only one attempt to connect for non-permanent faces
 		if !(t.conn == nil && attempt == 1) {
 			// Do not continue if the transport is not permanent or closed
-			if t.Persistency() != PersistencyPermanent || t.closed {
+			if t.Persistency() != PersistencyPermanent || t.closed.Load() {
 				t.rechan <- false // do not continue
 				return
 			}
@@ -208,7 +209,7 @@ func (t *UnicastTCPTransport) reconnect() {
 
 		// If the transport was closed while we were trying to reconnect,
 		// close the new connection and return without notifying
-		if t.closed {
+		if t.closed.Load() {
 			conn.Close()
 			return
 		}
@@ -253,7 +254,7 @@ func (t *UnicastTCPTransport) runReceive() {
 				*t.expirationTime = time.Now().Add(tcpLifetime)
 				t.linkService.handleIncomingFrame(b)
 			}, nil)
-			if err == nil || t.closed {
+			if err == nil || t.closed.Load() {
 				break // EOF
 			}
 
@@ -280,7 +281,15 @@ func (t *UnicastTCPTransport) CloseConn() {
 
 // Close the connection permanently - this will not attempt to reconnect.
 func (t *UnicastTCPTransport) Close() {
-	t.closed = true
-	t.rechan <- false
+	t.closed.Store(true)
+	// Wake the receive loop up if it is waiting for a reconnection attempt. Close is
+	// called more than once, from several goroutines (the face table's expiration
+	// handler or Stop, and always the receive loop itself on its way out): never wait
+	// for room in the channel. When it is full, a notification is already pending, and
+	// after the receive loop has gone nobody would ever make room.
+	select {
+	case t.rechan <- false:
+	default:
+	}
 	t.CloseConn()
 }
